@@ -41,12 +41,32 @@ def _name(obj: Any) -> str:
         return ''
 
 
+class HotLoop(BaseException):
+    """Raised by the tap into the code under test when it sends requests in a loop that never lets the event loop
+    run (every await completes synchronously): otherwise the driver would never get control back."""
+
+
+HOT_LIMIT = 300       # requests at one virtual instant; legitimate scripts stay far below
+
+
 class Recorder:
     def __init__(self, loop: vloop.VLoop) -> None:
         self.loop = loop
+        self.hot: str | None = None
+        self._t = -1.0
+        self._n = 0
         self.labels: list[dict] = []     # every observation, in order; 'w' marks world-only labels
         self.active = True
         self.paused = False
+
+    def request_tick(self) -> None:
+        t = self.loop.time()
+        if t != self._t:
+            self._t, self._n = t, 0
+        self._n += 1
+        if self._n > HOT_LIMIT:
+            self.hot = f'{self._n} requests at virtual time {t} without the event loop advancing'
+            raise HotLoop(self.hot)
 
     def add(self, kind: str, **kw: Any) -> None:
         if self.active:
@@ -110,6 +130,7 @@ class TapSession:
 
     async def request(self, method: str, url: str, json: Any = None, headers: Any = None, timeout: Any = None, **kw: Any) -> Any:
         rec = self.rec
+        rec.request_tick()
         q = dict(urllib.parse.parse_qsl(urllib.parse.urlparse(url).query))
         is_watch = q.get('watch') == 'true'
         if is_watch:
@@ -215,6 +236,8 @@ def run_script(script: list, cfg: dict) -> dict:
                             await asyncio.sleep(cdelay)
                 except asyncio.CancelledError:
                     raise
+                except HotLoop:
+                    return
                 except Exception as e:
                     rec.add('Raised', exc=type(e).__name__)
 
@@ -278,12 +301,15 @@ def run_script(script: list, cfg: dict) -> dict:
 
             for action in script:
                 do(action)
+                if rec.hot:
+                    break
             # ---- quiescence: no more faults, not paused, let everything be delivered
             mark = len(rec.labels)
             pending_faults['list'].clear()
             pending_faults['watch'].clear()
-            do(['resume'])
-            loop.run_for(8.0)
+            if not rec.hot:
+                do(['resume'])
+                loop.run_for(8.0)
             dead = task is not None and task.done()
             out = {
                 'labels': rec.labels, 'quiesce_from': mark, 'dead': dead,
@@ -294,6 +320,7 @@ def run_script(script: list, cfg: dict) -> dict:
                 'open_streams': len(api.open_streams(K)),
                 'callback_errors': callback_errors,
                 'backoff': backoff,
+                'stall': rec.hot,
             }
             rec.active = False
             if task is not None and not task.done():
